@@ -3,18 +3,18 @@
    emits names an element that the policy allows by name or by pattern, comments are emitted only
    when allowed, doctypes never, and every other emitted item is an escaped text token of the
    input or the blank of AddSpaceWhenStrippingTag.
-   Proved in addition, for every policy that keeps no comments and allows no raw-text element
-   (plain_policy; StrictPolicy and UGCPolicy are instances, C04) and every input byte string:
-   the tokens that the tokenizer model reads from the sanitized BYTES are text tokens or tags
-   naming an allowed element, never a comment or doctype (C01_output_tokens, from the round-trip
-   theorem Proofs/SanRoundTrip.retokenize_sanitize).
+   Proved in addition, for every policy without AllowUnsafe that allows no raw-text element
+   (plain_policy; comments may be kept; StrictPolicy and UGCPolicy are instances, C04) and every
+   input byte string: the tokens that the tokenizer model reads from the sanitized BYTES are text
+   tokens, tags naming an allowed element, or -- only when the policy allows comments -- comment
+   tokens that come from a comment token of the input; never a doctype (C01_output_tokens, from the
+   round-trip theorem Proofs/SanRoundTrip.retokenize_sanitize).
    For policies that keep comments: a kept comment is written as "<!--" escapeComment(data) "-->";
    C01_comment_reread proves, for every comment data and every continuation, that the tokenizer
    reads exactly one comment token from it (raw data = the escaped body) and resumes right after
    "-->": comment data can neither end the comment early nor swallow the markup that follows
    (Proofs/CommentRT.v: the escaped body has no ">" after the start, a "-" or a "!").
-   Missing for the full statement: the whole-document byte-level statement for policies that keep
-   comments (the single-token step is proved) or raw-text elements, and the tree-builder clause (x/net/html's parser in ten containers is not
+   Missing for the full statement: the byte-level statement for policies that allow raw-text elements, and the tree-builder clause (x/net/html's parser in ten containers is not
    modelled); both are carried by the implementation-side oracle on every generated case. *)
 From Coq Require Import List NArith Bool.
 Import ListNotations.
@@ -55,7 +55,8 @@ Section C01.
     match t with
     | TText _ => True
     | TStart n _ | TEnd n | TSelf n _ => elem_allowed I p n = true
-    | TComment _ | TDoctype _ => False
+    | TComment _ => allowComments p = true
+    | TDoctype _ => False
     end.
   Proof.
     intros Hplain s t Hin. pose proof (output_token_provenance M U R I p Hplain s t Hin) as H.
